@@ -115,6 +115,22 @@ def gen_kernel_group(rng, op, bits):
                 g["lines"].append("k k2c %d 4 %d %d %d %d | %s | %s" % (
                     bits, w, h, pitch, bu, " | ".join(" ".join(map(str, p)) for p in planes), " ".join(map(str, buf))))
             g["meta"].append({"cs": 4, "pitch": pitch, "bu": bu, "init": buf})
+    elif op[0] == "m" and op[2:3] == "5":     # merged upsampling to RGB565 (jdmrg565.c): widths 1..5 and SIMD-ish widths, rows at 0/2 mod 4
+        if rng.chance(1, 2):
+            w = g["w"] = rng.range(1, 5)
+        cw = (w + 1) // 2
+        chh = (h + 1) // 2 if op[1] == "2" else h
+        planes = [[sample(rng, mx, style) for _ in range(w * h)]] + [[sample(rng, mx, style) for _ in range(cw * chh)] for _ in range(2)]
+        g["planes"] = planes
+        for mis, pad in [(0, 0), (2, 0), (2, 2), (0, 6), (2, 32), (0, 2)]:
+            bu = rng.below(2)
+            scan0 = rng.below(4)
+            pitch = 2 * w + pad
+            buf = junk(rng, h * pitch, 8)
+            fl = bu | (mis << 1) | (scan0 << 6)
+            g["lines"].append("k %s 8 16 %d %d %d %d | %s | %s" % (
+                op, w, h, pitch, fl, " | ".join(" ".join(map(str, p)) for p in planes), " ".join(map(str, buf))))
+            g["meta"].append({"cs": 16, "pitch": pitch, "bu": bu, "mis": mis, "chunk": 1, "init": buf})
     elif op[1] == "5":              # RGB565 (8-bit): alignment of the row pointers, rows per color_convert call, pitch, row order
         if NARROW_565_OK and rng.chance(1, 4):
             w = g["w"] = rng.range(1, 3)    # regression input for F54: num_cols underflow when unaligned rows per call > width
@@ -155,6 +171,8 @@ def gen_api(rng, mode, thorough):
     big = 96 if thorough else 40
     w = rng.choice(WIDTHS) if rng.chance(1, 2) else rng.range(1, big)
     h = rng.range(1, big if rng.chance(1, 3) else 12)
+    if mode == "dec" and rng.chance(1, 6):
+        w = rng.range(1, 5)         # narrow images: RGB565 rows shorter than the rows-per-call (F54 class)
     subsamp = rng.below(7)
     qual = rng.choice([1, 25, 50, 75, 90, 95, 100, rng.range(1, 100)])
     cspace = -1
@@ -308,6 +326,10 @@ def judge_565(g, outs):
                     r, gg, b = pl[0][i], pl[1][i], pl[2][i]
                 elif op[0] == "g":
                     r = gg = b = pl[0][i]
+                elif op[0] == "m":
+                    cw = (w + 1) // 2
+                    ci = (y // 2 if op[1] == "2" else y) * cw + x // 2
+                    r, gg, b = py_rgb_of_ycc(pl[0][i], pl[1][ci], pl[2][ci], 255)
                 else:
                     r, gg, b = py_rgb_of_ycc(pl[0][i], pl[1][i], pl[2][i], 255)
                 v = ((r << 8) & 0xF800) | ((gg << 3) & 0x7E0) | (b >> 3)
@@ -331,7 +353,7 @@ def judge_kernel(g, outs):
     op, w, h, bits = g["op"], g["w"], g["h"], g["bits"]
     if op in ("c2k", "k2c"):
         return judge_4comp(g, outs)
-    if op[1] == "5":
+    if op[1] == "5" or (op[0] == "m" and op[2:3] == "5"):
         return judge_565(g, outs)
     amax = (1 << bits) - 1
     for o in outs:
@@ -455,7 +477,7 @@ def run(ctx):
         for fn in sorted(os.listdir(cdir)):
             if fn.endswith(".json"):
                 groups.append(json.load(open(os.path.join(cdir, fn))))
-    ops8 = ["c2y", "c2g", "c2r", "y2c", "g2c", "r2c", "y2g", "r2g", "m1", "m2", "c2k", "k2c", "y5", "r5", "g5", "y5d", "r5d", "g5d"]
+    ops8 = ["c2y", "c2g", "c2r", "y2c", "g2c", "r2c", "y2g", "r2g", "m1", "m2", "c2k", "k2c", "y5", "r5", "g5", "y5d", "r5d", "g5d", "m15", "m25", "m15d", "m25d"]
     nk = ctx.n(900, 7000)
     for i in range(nk):
         op = ops8[i % len(ops8)] if i < 3 * len(ops8) else rng.choice(ops8)
@@ -464,7 +486,7 @@ def run(ctx):
             bits = 12
         if op in ("c2r", "r2c") and rng.chance(1, 6):
             bits = 16
-        if op[1] == "5":
+        if op[1] == "5" or op[2:3] == "5":
             bits = 8
         groups.append(gen_kernel_group(rng, op, bits))
     for i in range(ctx.n(800, 8000)):
